@@ -14,6 +14,9 @@ import (
 // re-encodes byte-identically, hashes to its key, children and roots resolve, orphan keys parse.
 func TestVerifLegacyFormat(t *testing.T) {
 	bin := "./cmd/legacydump/legacydump"
+	if b := os.Getenv("VERIF_LEGACYDUMP"); b != "" {
+		bin = b
+	}
 	if _, err := os.Stat(bin); err != nil {
 		t.Skip("legacydump binary not present")
 	}
